@@ -601,6 +601,9 @@ class CFG:
         for n in self.nodes:
             if n.ast is None:
                 continue
+            if n.ast is node:
+                out.append(n)
+                continue
             if n.kind in ('loop', 'with'):
                 # header only: iter/target or items
                 hdr: List[ast.AST] = []
